@@ -183,6 +183,16 @@ def run(ctx):
     ctx.transitions += tr
     ctx.traces += ok
     ctx.extra['records'] = {k: sum(1 for r_ in recs if r_['ev'] == k) for k in ('jump', 'homog', 'hooke', 'grad', 'K', 'covar', 'iso', 'limit')}
+    import copy
+    neg = []
+    for ev, mut in (('jump', lambda c: c['up'].__setitem__(0, c['up'][0] + 64)), ('homog', lambda c: c.__setitem__('fk', [int(v * 1.01) + 9 for v in c['fk']])),
+                    ('hooke', lambda c: c['ceps'].__setitem__(0, c['ceps'][0] + 64)), ('grad', lambda c: c.__setitem__('eps_h2', c['eps_h'] + 100)),
+                    ('K', lambda c: c['k'][0].__setitem__(1, c['k'][0][1] + 9)), ('covar', lambda c: c['b'].__setitem__(0, c['b'][0] + 64)),
+                    ('iso', lambda c: c['got'].__setitem__(0, c['got'][0] + 9)), ('limit', lambda c: c.__setitem__('d', c['d'][::-1]))):
+        rr = [r_ for r_ in recs if r_['ev'] == ev]
+        if rr:
+            c = copy.deepcopy(rr[0]); mut(c); neg.append(c)
+    ctx.extra['corrupted_records_rejected'] = tlc.must_reject('Volterra_Trace', 'Volterra_trace.cfg', neg, ctx.work, 'C12')
     gr = [r_ for r_ in recs if r_['ev'] == 'grad']
     ctx.extra['richardson_ratios_eps'] = sorted(round(r_['eps_h'] / max(r_['eps_h2'], 1), 2) for r_ in gr)[:5]
     for b in bads:
